@@ -143,7 +143,7 @@ def tla_templates() -> str:
 def programs(rep, tier: str, rng: random.Random, limit: int) -> List[Tuple[str, str]]:
     """[(key, program text)]: ProgGen.tla programs, enumerated by TLC (sampled down to `limit`)."""
     maxblocks = 2
-    params = "{1, 2, 3}" if tier != "quick" else "{1, 3}"
+    params = "{1, 2, 3}" if tier != "quick" else "{1, 2}"
     mc = "\n".join(["---- MODULE ProgGenMC ----", "EXTENDS ProgGen",
                     "MC_Templates == " + tla_templates(),
                     "MC_InitTypes == {" + ", ".join(f'<<"{v}", "{t}">>' for v, t in sorted(INIT.items())) + "}",
